@@ -4,7 +4,11 @@ set -e
 cd "$(dirname "$0")"
 export GOFLAGS=-mod=mod GOPROXY=off GOWORK=off
 cp /repo/go.sum harness/go.sum
-(cd harness && go build -tags verif -o /dev/null ./cmd/... ./internal/... 2>&1 | grep -v "^$" || true; go vet -tags verif ./internal/hx >/dev/null 2>&1 || true)
+(cd harness && go build -tags verif ./cmd/... ./internal/...)
+# build variants used by the codec family (C07 / C02): pure Go, and cgo without one of the system libraries
+(cd harness && CGO_ENABLED=0 go build -tags verif ./cmd/vh_codec/ && go build -tags verif,goprobe_noliblz4 ./cmd/vh_codec/ \
+  && go build -tags verif,goprobe_nolibzstd ./cmd/vh_codec/) || echo "warning: codec build variants not warmed"
+rm -f harness/vh_codec
 python3 - <<'PY'
 import os, sys
 sys.path.insert(0, "lib")
